@@ -8,14 +8,17 @@ FLAG_CHOICES_Q = [0, 1, 8, 128, 256, 512, 129, 897, 1024, 16, 3]
 FLAG_CHOICES_T = [0, 1, 2, 3, 4, 8, 9, 64, 128, 256, 512, 129, 385, 897, 905, 1024, 2048, 16, 32, 1023 - 48]
 
 
+BINDINGS = ["0", "0-1", "1-2", "0,3", "2-5", "1", "3-15"]          # CPU lists the recorder binds itself to (BindChoices 1..7 of MC_Load.tla)
+
+
 def cfg_text(flag_choices, targets, maxsteps, emit="EmitCfg"):
-    return ("SPECIFICATION Spec\nCONSTANTS\n  Sources <- GSources\n  FlagChoices <- GFlagChoices\n  FilterTargets <- GFilterTargets\n  MaxFilterSteps = %d\n"
+    return ("SPECIFICATION Spec\nCONSTANTS\n  Sources <- GSources\n  FlagChoices <- GFlagChoices\n  FilterTargets <- GFilterTargets\n  BindChoices <- GBindChoices\n  MaxFilterSteps = %d\n"
             "VIEW View\nINVARIANTS FiltersSane %s\nCHECK_DEADLOCK FALSE\n" % (maxsteps, emit))
 
 
-def gen_module(flag_choices, targets):
-    return ("---- MODULE MC_Load_gen ----\nEXTENDS MC_Load\nGSources == {\"S\"}\nGFlagChoices == {%s}\nGFilterTargets == {%s}\n====\n"
-            % (", ".join(map(str, flag_choices)), ", ".join(map(str, targets))))
+def gen_module(flag_choices, targets, binds=()):
+    return ("---- MODULE MC_Load_gen ----\nEXTENDS MC_Load\nGSources == {\"S\"}\nGFlagChoices == {%s}\nGFilterTargets == {%s}\nGBindChoices == {%s}\n====\n"
+            % (", ".join(map(str, flag_choices)), ", ".join(map(str, targets)), ", ".join(map(str, binds))))
 
 
 def cfg_lines(hist, slot=0):
@@ -25,6 +28,8 @@ def cfg_lines(hist, slot=0):
             out.append("filter %d %d %d" % (slot, h[1], h[2]))
         elif h[0] == "flags":
             out.append("flags %d %d" % (slot, h[1]))
+        elif h[0] == "bind":
+            out.append("bind %d %s" % (slot, BINDINGS[h[1] - 1]))
     return out
 
 
@@ -132,6 +137,16 @@ def run(ctx, replay=None):
         two[tuple((x[1], x[2]) for x in calls)] = h[1:]
     ctx.extra["configurations_two_filter_calls"] = len(two)
 
+    # (4) exhaustive: the process binds itself before the load x the flag words around IS_THISSYSTEM / RESTRICT_TO_CPUBINDING / RESTRICT_TO_MEMBINDING
+    #     x at most one filter call on everything (run on the synthetic families and their XML exports)
+    bflags = [2, 18, 50, 19, 16, 146]
+    out, st = ctx.tlc_mc("MC_Load_gen", cfg_text(bflags, [-1], 1), tag="cfg_bind", workers=4,
+                         extra_modules=[("MC_Load_gen.tla", gen_module(bflags, [-1], range(1, len(BINDINGS) + 1)))])
+    if st["error"] or st["rc"] != 0:
+        raise vlib.Infra("MC_Load (bindings) failed: %s\n%s" % (st["error"], out[-2000:]))
+    bindcfgs = [h[1:] for h in vlib.tlc_printed(out, "CFG") if any(x[0] == "bind" for x in h[1:]) and any(x[0] == "flags" and x[1] & 16 and x[2] == 0 for x in h[1:])]
+    ctx.extra["configurations_with_binding"] = len(bindcfgs)
+
     srcs = all_sources(ctx)
     present, gen = prepass(ctx, exe, srcs)
     srcs += gen
@@ -157,6 +172,8 @@ def run(ctx, replay=None):
                [["filter", -1, 2, 0], ["load", 0, 0, 0]]]
     for s in srcs:
         picks = list(presets) + rng.sample(cfgs, min(per_src, len(cfgs))) + rng.sample(simcfgs, min(per_src, len(simcfgs))) + targeted(s)
+        if s["kind"] == "synthetic" or s["id"].startswith("genxml:"):
+            picks += bindcfgs if thorough else rng.sample(bindcfgs, min(4, len(bindcfgs)))
         for h in picks:
             if s["kind"] == "live" and any(x[0] == "flags" and (x[1] & 48) for x in h):
                 continue       # RESTRICT_TO_*BINDING on the live machine depends on the caller's binding: not driven (DESIGN residual)
